@@ -305,6 +305,16 @@ def features(proto):
                 objnames[f.name] = objnames.get(f.name, 0) + 1
     if any(v > 1 for v in objnames.values()):
         A.add('objname-reused')
+    # inline objects of one NAME declared with different member lists
+    shapes = {}
+    for pk in proto.packets:
+        fl = []
+        walk_fields(proto, pk.fields, (), fl)
+        for f, _ in fl:
+            if f.kind == 'inline':
+                shapes.setdefault(f.name, set()).add(tuple((g.kind, g.name, getattr(g, 'ntype', None), g.repeat) for g in f.fields))
+    if any(len(v) > 1 for v in shapes.values()):
+        A.add('inline-name-clash')
     # does the sample tree of some packet (object fields, inline objects, first match alternative) use one member name twice?
     for pk in proto.packets:
         names = []
